@@ -33,6 +33,7 @@ POLY = {
     "notchtri": [(1, 1), (3, 1), (1, 3)],  # all vertices on the boundary of `ell`, interior in its notch
     "hbar": [(-3, F(-1, 2)), (3, F(-1, 2)), (3, F(1, 2)), (-3, F(1, 2))],
     "vbar": [(F(-2, 3), -2), (F(1, 3), -2), (F(1, 3), 2), (F(-2, 3), 2)],
+    "u0": [(0, 0), (1, 0), (1, 1), (0, 1)], "u1": [(3, 0), (4, 0), (4, 1), (3, 1)], "u2": [(0, 3), (1, 3), (1, 4), (0, 4)],  # three congruent squares
     "sliver": [(1, F(1, 2000)), (3, F(1, 2000)), (3, 1), (1, 1)],  # half a millimetre above the base line of `square` in a drawing in metres
     "small": [(F(1, 2), F(1, 2)), (F(3, 2), F(1, 2)), (F(3, 2), F(3, 2)), (F(1, 2), F(3, 2))],
 }
@@ -69,6 +70,8 @@ def make(name, tx=0, ty=0):
         return ConnectedShape([poly("tinyo", tx, ty), poly("tinyi", tx, ty)])
     if name == "bullseye":  # a frame with a small frame inside its hole, built by an operator (nesting depth 2)
         return make("hollow", tx, ty) | make("tinyring", tx, ty)
+    if name == "three":  # three congruent components: ties in every sorting key the library uses
+        return DisjointShape([poly("u0", tx, ty), poly("u1", tx, ty), poly("u2", tx, ty)])
     if name == "two":  # two components
         return DisjointShape([poly("square", tx, ty), poly("far", tx, ty)])
     if name == "framedot":  # frame with an island in its hole... a Disjoint of Connected + Simple
@@ -96,6 +99,8 @@ def region_of_name(name, tx=0, ty=0):
         return ("and", [region_of_name("tinyo", tx, ty), region_of_name("tinyi", tx, ty)])
     if name == "bullseye":
         return ("or", [region_of_name("hollow", tx, ty), region_of_name("tinyring", tx, ty)])
+    if name == "three":
+        return ("or", [region_of_name("u0", tx, ty), region_of_name("u1", tx, ty), region_of_name("u2", tx, ty)])
     if name == "two":
         return ("or", [region_of_name("square", tx, ty), region_of_name("far", tx, ty)])
     if name == "framedot":
